@@ -6,7 +6,6 @@ package c02
 import (
 	"bytes"
 	"fmt"
-	"os"
 	"testing"
 
 	"pgregory.net/rapid"
@@ -106,11 +105,8 @@ func judged(kind string) bool {
 }
 
 func runCase(c Case, x *h.Ctx) {
-	dir, err := os.MkdirTemp("", "c02-")
-	if err != nil {
-		panic(err)
-	}
-	defer os.RemoveAll(dir)
+	dir, doneDir := sim.TempDir("c02-")
+	defer doneDir()
 	// one spare key (id len(Powers)) is outside the genesis set: used for validator changes and as
 	// a foreign signer
 	powers := append(append([]int64{}, c.Powers...), 0)
